@@ -19,6 +19,7 @@ func c01Scenarios() []vProdScenario {
 		{Name: "2p-maxbatches1", Producers: [][]int{{1}, {2}}, MaxBatches: 1, PreOpen: true, FailS3: true},
 		{Name: "2p-maxbatches2", Producers: [][]int{{1}, {2}}, MaxBatches: 2, PreOpen: true, FailS3: true},
 		{Name: "2p-cold", Producers: [][]int{{1}, {1}}, PreOpen: false, FailS3: true},
+		{Name: "2p-autocreate", Producers: [][]int{{1}, {1}}, PreOpen: false, AutoCreate: true, P: 2, D: 0},
 	}
 	if vh.Thorough() {
 		sc = append(sc,
@@ -51,6 +52,17 @@ func c01Check(s *sched.Sched, r *vProdRun) {
 			}
 		}
 		return false
+	}
+	// acknowledged batches must occupy disjoint offset ranges
+	for i, a := range r.Sent {
+		for j, b := range r.Sent {
+			if i >= j || !a.Done || !b.Done || a.Err != nil || b.Err != nil || a.Res.Code != 0 || b.Res.Code != 0 {
+				continue
+			}
+			if a.Res.Base < b.Res.Base+int64(b.N) && b.Res.Base < a.Res.Base+int64(a.N) {
+				s.Fail("acked-offsets-overlap", "producer %d batch %d acked at base %d (%d records) and producer %d batch %d acked at base %d (%d records)", a.Producer, a.Seq, a.Res.Base, a.N, b.Producer, b.Seq, b.Res.Base, b.N)
+			}
+		}
 	}
 	// restart: a fresh broker over the same store and bucket
 	var h2 *handler
